@@ -137,7 +137,7 @@ pub(crate) mod __verif_gc {
         core::mem::forget(gc);
     }
 
-    //@ H kind=bounded tier=thorough timeout=14400 bound="tables <= 2 entries over keys 0..=5, ts 0..=7, versions = 1..=3" oblig="sst::gc::GarbageCollector::next==retained(versions=N) (n<=2)"
+    //@ H kind=bounded tier=experimental timeout=14400 bound="tables <= 2 entries over keys 0..=5, ts 0..=7, versions = 1..=3" oblig="sst::gc::GarbageCollector::next==retained(versions=N) (n<=2)"
     #[kani::proof]
     #[kani::unwind(6)]
     fn collector_matches_versions_policy() { collector_case(2); }
